@@ -36,8 +36,8 @@ MANIFEST_ENTRY = {
         "codecs are proved under C07/C19. Flask routing, DB lookup, MP4 re-encoding not modelled."),
     "technique": "Lean 4 proof (slice of the global sequence + floor-division/leeway inequalities via linarith) + model/implementation correspondence",
 }
-PROP_FILES = ["DashLive/Props/C01.lean", "DashLive/Props/GenTie.lean", "DashLive/Props/GenTieTimeline.lean"]
-LEAN_TARGETS = ["DashLive.Props.C01", "DashLive.Props.GenTie", "DashLive.Props.GenTieTimeline"]
+PROP_FILES = ["DashLive/Props/C01.lean", "DashLive/Props/GenTie.lean", "DashLive/Props/GenTieTimeline.lean", "DashLive/Props/GenTieLiveIndex.lean"]
+LEAN_TARGETS = ["DashLive.Props.C01", "DashLive.Props.GenTie", "DashLive.Props.GenTieTimeline", "DashLive.Props.GenTieLiveIndex"]
 
 
 def _gen_options():
@@ -53,6 +53,8 @@ def _gen_arith():
     import gen_timeline
     gen_arith.main()
     gen_timeline.main()
+    import gen_liveindex
+    gen_liveindex.main()
 
 
 GENERATORS = [_gen_options, _gen_arith]
